@@ -35,6 +35,9 @@ func concRun(args []string) error {
 		if i%3 == 1 {
 			c.CutSession = 1 + i%c.Sessions
 		}
+		if i%4 == 2 {
+			c.Burst = true
+		}
 		if i%5 == 4 {
 			c = concdrv.Cfg{Sessions: 6, Rounds: 120, Storm: true, Seed: c.Seed}
 		}
